@@ -223,6 +223,10 @@ func doCliMatrix(c *core.Ctx, mflag string, avg bool, outmode, text string, nofi
 // and near misses that it refuses
 var specialLFlags = []string{"inf", "+Inf", "-inf", "Infinity", "-INFINITY", "+infinity", "nan", "NaN", "+nan", "-nan", "infin", "in", "nanx"}
 
+// fixed hexadecimal / separated spellings, accepted (0.5, 3, 1, 1000, 1, -0.25, 102.5) and refused
+var hexLFlags = []string{"0x1p-1", "0X1.8P+1", "0x_1p0", "1_000", "0x.8p1", "-0x1p-2", "+1_0.2_5e0_1",
+	"0x1p", "0x10", "1__0", "_1", "1_", "1e_5", "1_e5", "0_.5", "0x1.8", "0xp1", "0x1.8p+_1"}
+
 var badLFlags = []string{"abc", "", "1,5", "0.5.1", "--", "1e", "½"}
 
 func spellings(thr float64) []string {
@@ -289,6 +293,18 @@ func cliCutCase(c *core.Ctx) {
 		lflag = "v:" + badLFlags[c.G.Intn(len(badLFlags))]
 	case r < 26:
 		lflag = "v:" + specialLFlags[c.G.Intn(len(specialLFlags))]
+	case r < 34:
+		// hexadecimal floats and digit separators: ParseFloat accepts them (round 7b: inside the model)
+		thr := drawThreshold(c.G, first, o)
+		if o.LenDenom != 8 {
+			thr = float64(c.G.Intn(40)) / 8
+		}
+		sp := []string{strconv.FormatFloat(thr, 'x', -1, 64), strings.ToUpper(strconv.FormatFloat(thr, 'x', -1, 64))}
+		if d := strconv.FormatFloat(thr, 'f', -1, 64); thr >= 0 {
+			sp = append(sp, d[:1]+"_"+d[1:], "0_"+d, "0x_"+strconv.FormatFloat(thr, 'x', -1, 64)[2:]) // the first may be refused (`1_.5`): then both must refuse
+		}
+		sp = append(sp, hexLFlags...)
+		lflag = "v:" + sp[c.G.Intn(len(sp))]
 	default:
 		thr := drawThreshold(c.G, first, o)
 		if o.LenDenom != 8 {
